@@ -166,6 +166,9 @@ type FnCtx struct {
 	params  []types.Object
 	recv    types.Object
 	specNames map[string]types.Object // contract param name -> object
+	abstracted []string                     // external callees abstracted in this function
+	rootFi    *FuncInfo                     // while a contract-less callee is inlined: the function under verification
+	objAlias  map[types.Object]types.Object // inlined callee's pointer receiver -> the caller's pointer variable
 	safety  bool
 	extraAxioms []string
 	curPos  token.Pos
@@ -212,13 +215,13 @@ func (c *FnCtx) oblige(st *State, kind, label string, goal string, props []strin
 	if st.dead || goal == "true" {
 		if goal == "true" && kind != "cover" {
 			// trivially true goals are still counted (constfold) so that counts are stable
-			o := &Obligation{ID: c.oblID(kind, label), Kind: kind, Func: c.fi.Key, Props: props, Goal: "true", Decls: &c.decls,
+			o := &Obligation{ID: c.oblID(kind, label), Kind: kind, Func: c.ownerKey(), Props: props, Goal: "true", Decls: &c.decls,
 				Pos: c.eng.Fset.Position(c.curPos), GoalText: goalText, Status: "discharged", Backend: "constfold"}
 			c.obls = append(c.obls, o)
 		}
 		return
 	}
-	o := &Obligation{ID: c.oblID(kind, label), Kind: kind, Func: c.fi.Key, Props: props, Hyps: append(append([]string(nil), st.gfacts...), visibleHyps(st.hyps, props)...), Goal: goal,
+	o := &Obligation{ID: c.oblID(kind, label), Kind: kind, Func: c.ownerKey(), Props: props, Hyps: append(append([]string(nil), st.gfacts...), visibleHyps(st.hyps, props)...), Goal: goal,
 		Decls: &c.decls, Pos: c.eng.Fset.Position(c.curPos), Path: strings.Join(st.path, ";"), GoalText: goalText, Opaque: c.opaqueFor(kind, label)}
 	c.obls = append(c.obls, o)
 }
@@ -244,8 +247,30 @@ func (c *FnCtx) opaqueFor(kind, label string) []string {
 	return out
 }
 
+// ownerKey: the function whose verification the obligation belongs to (the caller, while a helper is inlined).
+func (c *FnCtx) ownerKey() string {
+	if c.rootFi != nil {
+		return c.rootFi.Key
+	}
+	return c.fi.Key
+}
+
+func (c *FnCtx) resolveAlias(o types.Object) types.Object {
+	for i := 0; i < 4; i++ {
+		n, ok := c.objAlias[o]
+		if !ok {
+			break
+		}
+		o = n
+	}
+	return o
+}
+
 func (c *FnCtx) oblID(kind, label string) string {
 	id := c.fi.Key + "#" + kind
+	if c.rootFi != nil {
+		id = c.rootFi.Key + "#" + kind + "@" + c.fi.Decl.Name.Name
+	}
 	if label != "" {
 		id += "." + label
 	}
